@@ -5,3 +5,143 @@
 
 // owner: group a2. `super::super` is the repository module `algorithm::kalman`.
 use super::super::*;
+
+use super::super::matrix::{Matrix, Vector};
+use super::super::source::KalmanState as KState;
+// `super::super::super` is the repository module `algorithm`
+use super::super::super::{
+    InternalTimeSyncController as ITSC, TimeSyncControllerWrapper as TSCW, WrapperMessage as WMsg,
+};
+
+/// Plain-number view of the private `SourceSnapshot` (what a source filter
+/// reports to the clock controller). Used by C03/C04/C37 to inject synthetic
+/// per-source estimates and to read the tag (`time`) of a forwarded message.
+#[derive(Debug, Clone, Copy)]
+pub struct SynthSnap {
+    pub id: u64,
+    pub offset: f64,
+    pub freq: f64,
+    pub var_offset: f64,
+    pub cov: f64,
+    pub var_freq: f64,
+    pub wander: f64,
+    pub delay: f64,
+    pub period: Option<f64>,
+    pub source_uncertainty: NtpDuration,
+    pub source_delay: NtpDuration,
+    pub leap: NtpLeapIndicator,
+    pub time: NtpTimestamp,
+}
+
+fn to_snapshot(s: &SynthSnap) -> SourceSnapshot {
+    SourceSnapshot {
+        index: ClockId(s.id),
+        state: KState {
+            state: Vector::new_vector([s.offset, s.freq]),
+            uncertainty: Matrix::new([[s.var_offset, s.cov], [s.cov, s.var_freq]]),
+            time: s.time,
+        },
+        wander: s.wander,
+        delay: s.delay,
+        period: s.period,
+        source_uncertainty: s.source_uncertainty,
+        source_delay: s.source_delay,
+        leap_indicator: s.leap,
+        last_update: s.time,
+    }
+}
+
+fn from_snapshot(s: &SourceSnapshot) -> SynthSnap {
+    SynthSnap {
+        id: s.index.0,
+        offset: s.state.state.ventry(0),
+        freq: s.state.state.ventry(1),
+        var_offset: s.state.uncertainty.entry(0, 0),
+        cov: s.state.uncertainty.entry(0, 1),
+        var_freq: s.state.uncertainty.entry(1, 1),
+        wander: s.wander,
+        delay: s.delay,
+        period: s.period,
+        source_uncertainty: s.source_uncertainty,
+        source_delay: s.source_delay,
+        leap: s.leap_indicator,
+        time: s.last_update,
+    }
+}
+
+/// Build the message a source filter would send for this snapshot.
+pub fn make_message(s: &SynthSnap) -> KalmanSourceMessage {
+    KalmanSourceMessage { inner: to_snapshot(s) }
+}
+
+/// Read a source message back as plain numbers.
+pub fn view_message(m: &KalmanSourceMessage) -> SynthSnap {
+    from_snapshot(&m.inner)
+}
+
+/// `last_update` of a message (the local time of the measurement that produced it).
+pub fn message_time(m: &KalmanSourceMessage) -> NtpTimestamp {
+    m.inner.last_update
+}
+
+pub fn clock_id(x: u64) -> ClockId {
+    ClockId(x)
+}
+
+pub fn clock_id_raw(id: ClockId) -> u64 {
+    id.0
+}
+
+/// The private selection step, called directly: returns the ids of the selected
+/// snapshots in the order `select` returned them.
+pub fn select_direct(
+    synchronization_config: &SynchronizationConfig,
+    algo_config: &AlgorithmConfig,
+    candidates: &[SynthSnap],
+) -> Vec<u64> {
+    let c: Vec<SourceSnapshot> = candidates.iter().map(to_snapshot).collect();
+    select::select(synchronization_config, algo_config, &c)
+        .iter()
+        .map(|s| s.index.0)
+        .collect()
+}
+
+/// The private leap vote + combination, called directly on a given selection:
+/// (used source ids, voted leap indicator).
+pub fn combine_direct(
+    algo_config: &AlgorithmConfig,
+    selection: &[SynthSnap],
+) -> Option<(Vec<u64>, Option<NtpLeapIndicator>)> {
+    let c: Vec<SourceSnapshot> = selection.iter().map(to_snapshot).collect();
+    combiner::combine(&c, algo_config).map(|c| (c.sources.iter().map(|i| i.0).collect(), c.leap_indicator))
+}
+
+/// Read-only view of the controller's source table: (id, usable flag, snapshot if any).
+pub fn controller_sources<C: NtpClock>(c: &KalmanClockController<C>) -> Vec<(u64, bool, Option<SynthSnap>)> {
+    let mut v: Vec<_> = c
+        .sources
+        .iter()
+        .map(|(id, (snap, usable))| (id.0, *usable, snap.as_ref().map(from_snapshot)))
+        .collect();
+    v.sort_by_key(|e| e.0);
+    v
+}
+
+pub fn controller_in_startup<C: NtpClock>(c: &KalmanClockController<C>) -> bool {
+    c.in_startup
+}
+
+pub fn controller_leap<C: NtpClock>(c: &KalmanClockController<C>) -> NtpLeapIndicator {
+    c.timedata.leap_indicator
+}
+
+/// Put a source message for `id` on the wrapper's own message channel, exactly as a
+/// source-controller wrapper does (`messages_for_system.send((id, SourceMessage(m)))`).
+/// Lets a workload deliver data for a source whose controller wrapper was already
+/// dropped ("data arriving after removal"), which the public API cannot express.
+/// Returns false when the channel is closed.
+pub fn inject_source_message<T: ITSC>(w: &TSCW<T>, id: ClockId, m: T::SourceMessage) -> bool {
+    w.messages_for_system_sender
+        .send((id, WMsg::SourceMessage(m)))
+        .is_ok()
+}
